@@ -39,11 +39,15 @@ type c02Cfg struct {
 	LongLbl bool     `json:"long_labels"`
 	MBLbl   bool     `json:"multibyte_labels,omitempty"`
 	Sep     string   `json:"menu_separator,omitempty"` // engine.Config.MenuSeparator ("" = default ':'); not with MSink
+	XLbl    bool     `json:"labels_expanded_by_resource,omitempty"` // the browse entries name symbols (nx, pv) that the resource expands to longer labels
 	Size    uint32   `json:"output_size"`
 	Mode    string   `json:"mode"`
 }
 
 func (g c02Cfg) labels() (nx, pv string) {
+	if g.XLbl {
+		return "page suivante", "page precedente"
+	}
 	if g.MBLbl {
 		return "weiter \u2192\u2192", "zur\u00fcck \u2190" // 13 and 10 bytes, 9 and 8 characters
 	}
@@ -150,6 +154,10 @@ func c02App(g c02Cfg) *app.App {
 		for i := 0; i < g.Menu; i++ {
 			code = append(code, codec.Ins{Op: codec.MOUT, Sym: fmt.Sprintf("m%d", i), Sel: fmt.Sprint(i)})
 		}
+	}
+	if g.XLbl {
+		a.Menus["nx"], a.Menus["pv"] = nx, pv
+		nx, pv = "nx", "pv"
 	}
 	if g.Next {
 		code = append(code, codec.Ins{Op: codec.MNEXT, Sym: nx, Sel: "11"})
@@ -533,10 +541,16 @@ func c02Run(c *mc.Ctx) {
 								if long && b == 3 && mn == 1 {
 									g.LongLbl, g.MBLbl = false, true // this slot of the family uses labels with multi-byte characters
 								}
+								if long && b == 3 && mn == 2 {
+									g.LongLbl, g.Sep = false, " - " // ... this one a menu separator of three bytes
+								}
+								if long && b == 3 && mn == 0 && !f.msink {
+									g.LongLbl, g.XLbl = false, true // ... and this one browse labels that the resource expands
+								}
 								tot := g.total()
 								for sz := 1; sz <= tot+3; sz++ {
 									g.Size = uint32(sz)
-									key := fmt.Sprintf("%v|%d|%d|%v|%d|%v%v|%d", rows, tpl, mn, f.msink, b, g.LongLbl, g.MBLbl, sz)
+									key := fmt.Sprintf("%v|%d|%d|%v|%d|%v%v%v%s|%d", rows, tpl, mn, f.msink, b, g.LongLbl, g.MBLbl, g.XLbl, g.Sep, sz)
 									sig, msg, reqs := c02Walk(g, func(pages int, vac bool) {
 										if vac {
 											c.Count("walks_page0_fails_vacuous", 1)
